@@ -12,10 +12,23 @@ def reg(pid, text, note, technique, ref=None):
 COMMON_NOTE = ("Trusted base: the harness' own reference model (numpy only, no droplets/scipy.ndimage/grid.distance), "
                "numpy/scipy/h5py/py-pde as environment; verdict holds for every element of the declared finite space only.")
 
-reg("C12", "Every (dimension, value on a 30-decade lattice, argument form) combination is run through every variant of every conversion "
-    "and the droplet accessors on the real code and compared with the closed-form definitions; complete enumeration, no sampling.",
+X = " Complete enumeration of the declared finite space on the real implementation (stateless exploration), no sampling; tiers differ only in the size of the declared space."
+reg("C01", "All lattice placements (position class x sub-cell offset per axis, radii, periodicity masks, spacings, origins, 1-2 droplets) of spherical droplets on Cartesian grids and radius/z lattices on polar, spherical and cylindrical grids are rendered and located; count, exact covered-cell volume, half-cell centre bound and in-box are judged against an own covered-set model." + X,
+    COMMON_NOTE + " The half-cell bound is checked on the lattice, not proved for the continuum; cylindrical periodic-z droplets stay away from the z boundary.", "bounded exhaustive input enumeration vs. independent covered-cell model")
+reg("C02", "Every binary image of the declared small grids under every periodicity mask (plus cylindrical grids) is analysed and compared with an independent union-find labelling that carries integer period offsets (components, winding, unwrapped centre of mass): bijection, volume, position, disjointness, omission rule, empty result." + X,
+    COMMON_NOTE + " Exhaustive up to 16-20 cells; larger images only through a fixed catalogue.", "exhaustive enumeration of all binary images vs. union-find reference")
+reg("C06", "All frame histories up to depth 3 (5 for single-droplet frames) over a droplet-type lattice, for every tracker configuration (method x cut-off x metric x time variant), are fed to the tracker on fresh objects; the returned tracks are compared as a multiset partition of the input, with alignment, copy, gap-free and input-unmodified clauses." + X,
+    COMMON_NOTE, "bounded exhaustive exploration of operation histories (frames fed) vs. reference partition model")
+reg("C07", "Same history space as C06 restricted to internally non-overlapping frames, plus motion histories; links are compared with the overlap relation and with a greedy closest-pair reference computed with an own periodic metric." + X,
+    COMMON_NOTE + " Ties / contacts within 1e-9 are skipped and counted.", "bounded exhaustive exploration of frame histories vs. reference matching model")
+reg("C10", "All ordered emulsions of up to 3-4 droplets over a (position, radius) lattice in 1-3 dimensions, every min_distance and every metric (none, periodic, mixed, non-periodic) are run through remove_overlapping and the distance queries and compared with an own minimal-image distance matrix; from_random over a seeded catalogue." + X,
+    COMMON_NOTE, "bounded exhaustive input enumeration vs. reference distance model")
+reg("C11", "All ordered operand pairs over position/radius/width alphabets in 1-3 dimensions through all four code paths (merge, in-place, class-level on records, numba-jitted) and all bracketings/orders of 3-4 droplets are compared with the conservation laws." + X,
+    COMMON_NOTE + " Symbolic 'for all positive reals' is not decided.", "bounded exhaustive input enumeration vs. conservation-law reference")
+reg("C12", "Every (dimension, value on a 30-decade lattice, argument form) combination is run through every variant of every conversion and the droplet accessors on the real code and compared with the closed-form definitions." + X,
     COMMON_NOTE + " Symbolic 'for all positive reals' is not decided.", "bounded exhaustive input enumeration against reference formulas")
-
+reg("C16", "All non-zero fields over a 3-letter alphabet on small periodic grids (1-3 dim, even/odd) are transformed by every scaling, cyclic shift, reflection, axis permutation and regridding of a menu and compared with a direct DFT from the definition, Parseval and the exact wave-number grid; the smoothed variant is checked for the same invariances." + X,
+    COMMON_NOTE, "exhaustive enumeration of all small fields x symmetry group vs. direct-DFT reference")
 def main():
     checks, na = [], []
     for p in props:
